@@ -56,6 +56,9 @@ class C2Beacon(AbstractC2, discriminator="c2-beacon"):
     def __init__(self, **kwargs):
         kwargs["name"] = "c2-beacon"
         super().__init__(**kwargs)
+        # a C2 server address given in the scenario options is the beacon's remote connection, as if configured
+        if self.config.c2_server_ip_address is not None:
+            self.c2_remote_connection = IPv4Address(self.config.c2_server_ip_address)
 
     @property
     def _host_terminal(self) -> Optional[Terminal]:
